@@ -1,0 +1,21 @@
+//go:build verif
+
+package datafile
+
+// VerifPoisonBlockPool overwrites up to n pooled block buffers with a fixed
+// pattern and returns them to the pool. A reader that looks at more of a block
+// buffer than it has just filled then sees the pattern instead of whatever an
+// earlier read left there. Verification builds only.
+func VerifPoisonBlockPool(n int) {
+	bufs := make([][]byte, 0, n)
+	for i := 0; i < n; i++ {
+		b := getBuf()
+		for j := range b {
+			b[j] = 0xA5
+		}
+		bufs = append(bufs, b)
+	}
+	for _, b := range bufs {
+		putBuf(b)
+	}
+}
